@@ -8,6 +8,7 @@ from .. import gen
 from ..core import case_nprng, interleave
 from ..drivers import index as drv
 from ..drivers import program
+from ..model import Snap
 from ..oracles import inv
 
 PIGGY = True  # thorough tier also runs the repository tests / howtos / examples under these monitors
@@ -186,6 +187,34 @@ def system_io(rec, hub, rng, i):
         for k_, v_ in user.items():
             if v_.tobytes() != kept[k_].tobytes() and not np.array_equal(v_, kept[k_], equal_nan=True) or (v_ != kept[k_]).any():
                 rec.violation("inputs-unchanged", "lifetime-model-changed-a-parameter-array-it-was-given", {"model": mname, "parameter": k_, "n_changed": int((v_ != kept[k_]).sum()), "example_before_after": [float(kept[k_][v_ != kept[k_]][0]), float(v_[v_ != kept[k_]][0])]})
+    # a stock built from the user's arrays whose dimensions are equal to, but not the same objects as, the stock's (deep copies, a
+    # dimension under another name): the arrays stay the user's - their dimension sets, names and values - also when the set the stock was
+    # declared with is edited in place afterwards
+    import copy as _copy
+
+    t_s = fd.Dimension(letter="t", name="time", items=[2000, 2001, 2002])
+    a_s = fd.Dimension(letter="a", name=U["a"].name, items=list(U["a"].items))
+    ds_s = fd.DimensionSet(dim_list=[t_s, a_s])
+    a_other_name = fd.Dimension(letter="a", name="the same items under another name", items=list(U["a"].items))
+    for variant in range(3):
+        arr_dims = _copy.deepcopy(ds_s) if variant == 0 else fd.DimensionSet(dim_list=[fd.Dimension(letter="t", name="time", items=[2000, 2001, 2002]), a_other_name if variant == 1 else _copy.deepcopy(a_s)])
+        given = {q_: fd.StockArray(dims=arr_dims.copy(), values=gen.values_one("dyadic", rng, (3, len(a_s.items))), name=f"my {q_}") for q_ in ("inflow", "outflow", "stock")}
+        kept = {q_: Snap(v_) for q_, v_ in given.items()}
+        rec.event("inputs-unchanged", sig=f"stock-from-user-arrays|{variant}", cls="stock built from arrays over equal but distinct dimensions")
+        try:
+            st_s = fd.SimpleFlowDrivenStock(dims=ds_s, time_letter="t", **{q_: v_ for q_, v_ in given.items() if q_ != "stock"})
+            st_s.compute()
+            ds_s.append(fd.Dimension(letter="z", name="added later", items=["z1", "z2"]), inplace=True)
+            ds_s.drop("z", inplace=True)
+            ds_s.replace("a", fd.Dimension(letter="q", name="swapped in", items=["q1"]), inplace=True)
+            ds_s.replace("q", a_s, inplace=True)
+        except Exception:
+            continue
+        for q_ in ("inflow", "outflow"):
+            now = Snap(given[q_])
+            if not now.ok or tuple(now.letters) != tuple(kept[q_].letters) or tuple(now.names) != tuple(kept[q_].names) or not np.array_equal(now.values, kept[q_].values):
+                rec.violation("inputs-unchanged", "stock-changed-an-array-it-was-built-from", {"array": q_, "variant": ["deep copy of the set", "a dimension under another name", "separately built dimensions"][variant],
+                                                                                               "names_before": list(kept[q_].names), "names_now": list(now.names), "letters_now": list(now.letters), "shape_consistent": bool(now.ok)})
     tdim = fd.Dimension(letter="t", name="time", items=[2000, 2001, 2003, 2006])
     ds = fd.DimensionSet(dim_list=[tdim, U["a"]])
     inflow = fd.StockArray(dims=ds, values=np.abs(gen.values_one("dyadic", rng, ds.shape)))
